@@ -916,7 +916,7 @@ class Engine:
             return simp(z3.fpToIEEEBV(z3.fpRem(A, B)))
         return simp(z3.fpToIEEEBV(r(RNE, A, B)))
     def fcmp(s, pred, bits, a, b):
-        if isinstance(a, Undef) or isinstance(b, Undef): raise Bug('undef', 'fcmp on uninitialised value')
+        if isinstance(a, Undef) or isinstance(b, Undef): return Undef(1)       # poison-like, as icmp: only a use (branch, select condition, environment) is an error
         if pred == 'true': return 1
         if pred == 'false': return 0
         if a.__class__ is int and b.__class__ is int:
@@ -973,6 +973,7 @@ class Engine:
     def do_throw(s, st, obj, tname, dtor=None):
         if tname.startswith('_ZTI'): tname = tname[4:]
         st.exc = ExcInfo(obj, tname, dtor)
+        st.env['uncaught'] = st.env.get('uncaught', 0) + 1       # std::uncaught_exceptions(): thrown and not yet caught
         st.log.append(('throw', tname, s.where(st)[:200]))
         raise Throw()
     def throw_std(s, st, tname, msg=''):
@@ -1242,7 +1243,7 @@ class Engine:
             if isinstance(c, Undef): raise Bug('undef', 'select on uninitialised value', s._m(st))
             if a is b: regs[dst] = a; return
             ca, cb = a.__class__, b.__class__
-            if ca in (P, FnPtr, Agg, Undef) or cb in (P, FnPtr, Agg, Undef) or bits == 0:
+            if ca in (P, FnPtr, Agg, Undef, Partial, Lin) or cb in (P, FnPtr, Agg, Undef, Partial, Lin) or bits == 0:
                 if ca is P and cb is P and a.obj == b.obj:
                     regs[dst] = P(a.obj, simp(z3.If(boolv(c), bv(a.off, 64), bv(b.off, 64)))); return
                 return s.fork_branch(st, fr, work, c, lambda s2, f2: f2.regs.__setitem__(dst, a), lambda s2, f2: f2.regs.__setitem__(dst, b))
